@@ -93,6 +93,10 @@ type ReqOpt struct {
 	// NoFragments leaves inline fragments and fragment spreads out (they can
 	// repeat a response key of the enclosing selection set).
 	NoFragments bool
+	// PathMode generates narrow requests: one random path through the type
+	// graph with a leaf at the end (different requests then enter the same
+	// types through different fields first).
+	PathMode bool
 	// UniqueKeys avoids repeating a response key inside one selection set.
 	UniqueKeys bool
 }
@@ -163,7 +167,7 @@ func (g *reqGen) argsFor(kind string) string {
 			parts = []string{"upper: " + strconv.FormatBool(g.t.Bool(1, 2))}
 		}
 	case "find":
-		switch g.t.Draw(4) {
+		switch g.t.Draw(6) {
 		case 0:
 			return ""
 		case 1:
@@ -174,8 +178,14 @@ func (g *reqGen) argsFor(kind string) string {
 			} else {
 				parts = []string{"filter: {minAge: 33, names: [\"k1\"]}"}
 			}
-		default:
+		case 3:
 			parts = []string{"filter: {size: BIG, minAge: " + strconv.Itoa(g.t.Draw(60)) + "}"}
+		case 4:
+			// variable-free literal whose coercion is not the identity: input field
+			// defaults are filled in (minAge, limit) and an Int literal becomes an ID string
+			parts = []string{"filter: {size: SMALL, tag: " + strconv.Itoa(g.t.Draw(9)) + "}"}
+		default:
+			parts = []string{"filter: {names: [\"k1\", \"k" + strconv.Itoa(g.t.Draw(4)) + "\"], tag: \"t\"}"}
 		}
 	case "rename":
 		parts = []string{"old: " + strconv.Quote("k"+strconv.Itoa(g.t.Draw(4))), "new: \"zz\""}
@@ -232,7 +242,37 @@ func (g *reqGen) fieldsOf(typ string) []zf {
 	return fs
 }
 
+// pathSelection selects one object-typed field (or a fragment on a union
+// member) per level and one leaf at the end.
+func (g *reqGen) pathSelection(typ string, depth int) string {
+	if members, ok := zooUnion[typ]; ok {
+		m := members[g.t.Draw(len(members))]
+		return " { ... on " + m + g.pathSelection(m, depth+1) + " }"
+	}
+	fs := g.fieldsOf(typ)
+	var objs, leaves []zf
+	for _, f := range fs {
+		if f.typ != "" {
+			objs = append(objs, f)
+		} else {
+			leaves = append(leaves, f)
+		}
+	}
+	if len(objs) > 0 && depth < g.o.MaxDepth && (len(leaves) == 0 || g.t.Bool(3, 4)) {
+		f := objs[g.t.Draw(len(objs))]
+		return " { " + f.name + g.argsFor(f.args) + g.pathSelection(f.typ, depth+1) + " }"
+	}
+	if len(leaves) == 0 {
+		return " { __typename }"
+	}
+	f := leaves[g.t.Draw(len(leaves))]
+	return " { " + f.name + g.argsFor(f.args) + " }"
+}
+
 func (g *reqGen) selection(typ string, depth int, ind string) string {
+	if g.o.PathMode {
+		return g.pathSelection(typ, depth)
+	}
 	var b strings.Builder
 	b.WriteString(" {\n")
 	if members, ok := zooUnion[typ]; ok {
